@@ -53,11 +53,25 @@ def canon_pos(e):
     return e
 
 
+def qha_corner_label(writer="save_x_tp"):
+    """the text qha's table writer puts in the corner of the header line (`df.columns.name = ...` in the installed qha.basic_io.out); read back by
+    pandas.read_table(index_col=0) it is the NAME of the index"""
+    import ast as _ast
+    from .libsum import lib_func
+    fd = lib_func("qha/basic_io/out.py", writer)
+    for st in _ast.walk(fd):
+        if isinstance(st, _ast.Assign) and len(st.targets) == 1 and isinstance(st.targets[0], _ast.Attribute) and st.targets[0].attr == "name" \
+                and isinstance(st.targets[0].value, _ast.Attribute) and st.targets[0].value.attr == "columns" and isinstance(st.value, _ast.Constant) and isinstance(st.value.value, str):
+            return st.value.value
+    return None
+
+
 class Axis:
-    def __init__(self, role, parsed=False):
+    def __init__(self, role, parsed=False, name=None):
         self.role, self.parsed = role, parsed
         self.sym = labels(role)
         self.const_key = ("axis", role)
+        self.name = name
 
     def sym_getattr(self, ev, name, node, mod):
         if name in ("to_numpy", "tolist", "to_list", "copy", "rename", "rename_axis", "set_names"):
@@ -71,7 +85,7 @@ class Axis:
         if name == "size":
             return sp.Symbol(f"N_{self.role}", positive=True, integer=True)
         if name in ("name", "names"):
-            return None
+            return self.name
         if name == "get_loc":
             return BoundLib("tbl.axis.get_loc", self)
         if name in ("max", "min"):
@@ -213,13 +227,15 @@ class Table:
 
     def sym_getattr(self, ev, name, node, mod):
         if name == "T":
-            return Table(self.var, self.columns, self.index, {"index": self.parsed["columns"], "columns": self.parsed["index"]})
+            t_ = Table(self.var, self.columns, self.index, {"index": self.parsed["columns"], "columns": self.parsed["index"]})
+            t_.index_name, t_.columns_name = getattr(self, "columns_name", None), getattr(self, "index_name", None)
+            return t_
         if name == "transpose":
             return BoundLib("tbl.table.transpose", self)
         if name == "columns":
-            return Axis(self.columns, self.parsed["columns"])
+            return Axis(self.columns, self.parsed["columns"], getattr(self, "columns_name", None))
         if name == "index":
-            return Axis(self.index, self.parsed["index"])
+            return Axis(self.index, self.parsed["index"], getattr(self, "index_name", None))
         if name == "iloc":
             return ILoc(self)
         if name == "to_numpy":
